@@ -282,45 +282,7 @@ func enumPaths(fn *ssa.Function, to *ssa.BasicBlock, limit int) (paths []cfgPath
 					addCondFacts(p.Facts, iff.Cond, pr.Succs[0] == nx)
 				}
 			}
-			// a boolean phi whose value is known on this path has, on this path, the value of the edge the path
-			// took into its block: that value is known too (and a contradicting constant makes the path infeasible)
-			feasible := true
-			idx := map[*ssa.BasicBlock]int{}
-			for k, pb := range p.Blocks {
-				idx[pb] = k
-			}
-			for round := 0; round < 4 && feasible; round++ {
-				added := false
-				for f := range p.Facts {
-					ph, isPhi := f.Cond.(*ssa.Phi)
-					if !isPhi {
-						continue
-					}
-					k, onPath := idx[ph.Block()]
-					if !onPath || k == 0 {
-						continue
-					}
-					from := p.Blocks[k-1]
-					for e, pr := range ph.Block().Preds {
-						if pr != from || e >= len(ph.Edges) {
-							continue
-						}
-						if v, isC := constBool(ph.Edges[e]); isC {
-							if v != f.Pol {
-								feasible = false
-							}
-							continue
-						}
-						if !p.Facts[condFact{ph.Edges[e], f.Pol}] {
-							addCondFacts(p.Facts, ph.Edges[e], f.Pol)
-							added = true
-						}
-					}
-				}
-				if !added {
-					break
-				}
-			}
+			feasible := resolvePhisOnPath(&p)
 			if !feasible {
 				return
 			}
@@ -368,6 +330,49 @@ func enumPaths(fn *ssa.Function, to *ssa.BasicBlock, limit int) (paths []cfgPath
 	return paths, ok
 }
 
+// resolvePhisOnPath: a boolean phi whose value is known on this path has, on this path, the value of the edge the
+// path took into its block: that value is known too (and a contradicting constant makes the path infeasible).
+func resolvePhisOnPath(p *cfgPath) bool {
+	feasible := true
+	idx := map[*ssa.BasicBlock]int{}
+	for k, pb := range p.Blocks {
+		idx[pb] = k
+	}
+	for round := 0; round < 4 && feasible; round++ {
+		added := false
+		for f := range p.Facts {
+			ph, isPhi := f.Cond.(*ssa.Phi)
+			if !isPhi {
+				continue
+			}
+			k, onPath := idx[ph.Block()]
+			if !onPath || k == 0 {
+				continue
+			}
+			from := p.Blocks[k-1]
+			for e, pr := range ph.Block().Preds {
+				if pr != from || e >= len(ph.Edges) {
+					continue
+				}
+				if v, isC := constBool(ph.Edges[e]); isC {
+					if v != f.Pol {
+						feasible = false
+					}
+					continue
+				}
+				if !p.Facts[condFact{ph.Edges[e], f.Pol}] {
+					addCondFacts(p.Facts, ph.Edges[e], f.Pol)
+					added = true
+				}
+			}
+		}
+		if !added {
+			break
+		}
+	}
+	return feasible
+}
+
 // enumPathsBetween lists the acyclic paths from block `from` to block `to` (both included).
 func enumPathsBetween(fn *ssa.Function, from, to *ssa.BasicBlock, limit int) (paths []cfgPath, ok bool) {
 	ok = true
@@ -389,6 +394,9 @@ func enumPathsBetween(fn *ssa.Function, from, to *ssa.BasicBlock, limit int) (pa
 				if iff, isIf := pr.Instrs[len(pr.Instrs)-1].(*ssa.If); isIf && pr.Succs[0] != pr.Succs[1] {
 					addCondFacts(p.Facts, iff.Cond, pr.Succs[0] == nx)
 				}
+			}
+			if !resolvePhisOnPath(&p) {
+				return
 			}
 			deriveFacts(p.Facts)
 			paths = append(paths, p)
@@ -457,6 +465,11 @@ func calleeImpliedFacts(p *Program, call *ssa.Call, pol bool) map[condFact]bool 
 			addCondFacts(fs, ret.Results[0], pol)
 			if fs[condFact{ret.Results[0], !pol}] {
 				continue // the path cannot return pol
+			}
+			// `return a && b` returns a phi: on the path that skipped b it is the constant false
+			pp := cfgPath{Blocks: pa.Blocks, Facts: fs}
+			if !resolvePhisOnPath(&pp) {
+				continue
 			}
 		}
 		if common == nil {
